@@ -719,6 +719,53 @@ func c15(c *core.Ctx, r *core.Report) {
 		} else if _, isDefer := unset.(*ssa.Defer); isDefer {
 			r.Violation("runStage#unset-on-every-exit", an.Pos(c, unset), "the deferred unsetEnvs does not cover every return")
 		}
+		// the same pairing wherever else the package puts parameters into the environment (parameters shared by all
+		// stages, set around the stage loop): after the helper that sets them was called, every exit of that function
+		// passes the helper that removes them
+		reaches := func(f *ssa.Function, name string) bool {
+			if f == nil || core.RelPkg(f) != fpkg || f.Blocks == nil {
+				return false
+			}
+			return len(an.FlatCalls(f, 2, func(_ ssa.CallInstruction, t *ssa.Function) bool { return an.IsFunc(t, "os", name) })) > 0
+		}
+		for _, fn := range c.AllFuncs {
+			if core.RelPkg(fn) != fpkg || an.Outermost(fn) == rs || reaches(fn, "Setenv") && fn.Parent() == nil && len(an.CallSitesOf(c, fn)) > 0 && !reaches(fn, "Unsetenv") {
+				continue
+			}
+			nth := 0
+			for _, call := range an.AllCalls(fn) {
+				if _, isDefer := call.(*ssa.Defer); isDefer || !reaches(an.Callee(call), "Setenv") || reaches(an.Callee(call), "Unsetenv") {
+					continue
+				}
+				nth++
+				key := core.FuncName(fn) + "#unset-on-every-exit" + itoa(nth)
+				isUnset := func(in ssa.Instruction) bool {
+					ci, ok := in.(ssa.CallInstruction)
+					return ok && reaches(an.Callee(ci), "Unsetenv") && !reaches(an.Callee(ci), "Setenv")
+				}
+				covered := false
+				an.Instrs(fn, func(in ssa.Instruction) {
+					if d, isDefer := in.(*ssa.Defer); isDefer && isUnset(d) && dominatesAllReturns(d, fn) {
+						covered = true
+					}
+				})
+				if covered {
+					r.OK(key, an.Pos(c, call), "a deferred removal covers every exit")
+					continue
+				}
+				esc := an.EscapesWithout(call, func(in ssa.Instruction) bool {
+					if _, isDefer := in.(*ssa.Defer); isDefer {
+						return false
+					}
+					return isUnset(in)
+				})
+				if esc != nil {
+					r.Violation(key, an.Pos(c, esc), "this exit is reachable after parameters were put into the environment here without removing them: when the run is cancelled or ends early they remain set after the run")
+				} else {
+					r.OK(key, an.Pos(c, call), "every exit after this call removes the parameters again")
+				}
+			}
+		}
 	})
 }
 
